@@ -22,8 +22,8 @@ ASSUMPTIONS = [
     "costs are compared across permutations only (not across metrics)",
 ]
 BUDGET = {
-    "quick": {"cases": 1600, "seconds": 60, "shards": 8},
-    "thorough": {"cases": 24000, "seconds": 540, "shards": 16},
+    "quick": {"cases": 6400, "seconds": 90, "shards": 8},
+    "thorough": {"cases": 96000, "seconds": 900, "shards": 16},
 }
 REQUIRED_OBS = ["perm_compared", "rescale_compared", "perm_moves_prototype", "pred_compared", "nearest_not_conqueror", "pre_computed_perm"]
 MIN_NONTRIVIAL = 60
